@@ -176,6 +176,38 @@ fn prog_step(regs: &[Float], ins: &str) -> Option<Float> {
         ["fromi64", s, n] => Some(Float::from_i64(parse_sem(s)?, n.parse().ok()?)),
         ["frombig", s, h] => Some(Float::from_bigint(parse_sem(s)?, parse_big(h)?)),
         ["powi", n, a] => Some(reg(a)?.powi(n.parse().ok()?)),
+        ["one", s, sg] => Some(Float::one(parse_sem(s)?, *sg == "1")),
+        ["setsign", sg, a] => {
+            let mut x = reg(a)?;
+            x.set_sign(*sg == "1");
+            if x.is_negative() != (*sg == "1") || x.get_sign() != (*sg == "1") {
+                return None;
+            }
+            Some(x)
+        }
+        ["const", name, s] => {
+            let f = parse_sem(s)?;
+            Some(match *name {
+                "pi" => Float::pi(f),
+                "e" => Float::e(f),
+                "ln2" => Float::ln2(f),
+                _ => return None,
+            })
+        }
+        ["fn", name, a] => {
+            let x = reg(a)?;
+            Some(match *name {
+                "exp" => x.exp(),
+                "log" => x.log(),
+                "sigmoid" => x.sigmoid(),
+                "sin" => x.sin(),
+                "cos" => x.cos(),
+                "tan" => x.tan(),
+                "sqr" => x.sqr(),
+                _ => return None,
+            })
+        }
+        ["pow", a, b] => Some(reg(a)?.pow(&reg(b)?)),
         ["min", a, b] => Some(reg(a)?.min(&reg(b)?)),
         ["max", a, b] => Some(reg(a)?.max(&reg(b)?)),
         ["rem", a, b] => Some(reg(a)?.rem(&reg(b)?)),
@@ -212,7 +244,11 @@ fn big_op(op: &str, a: &[&str]) -> Option<String> {
             z.inplace_add(&y);
             let mut w = x.clone();
             w += &y;
-            Some(same(vec![show_big(&z), show_big(&(x.clone() + y.clone())), show_big(&(&x + &y)), show_big(&w)]))
+            let mut v = vec![show_big(&z), show_big(&(x.clone() + y.clone())), show_big(&(&x + &y)), show_big(&w)];
+            if y.len() == 1 {
+                v.push(show_big(&(x.clone() + y.as_u64())));
+            }
+            Some(same(v))
         }
         ("sub", [x, y]) => {
             let (x, y) = (parse_big(x)?, parse_big(y)?);
@@ -220,7 +256,11 @@ fn big_op(op: &str, a: &[&str]) -> Option<String> {
             let borrow = z.inplace_sub(&y);
             let mut w = x.clone();
             w -= &y;
-            let v = same(vec![show_big(&z), show_big(&(x.clone() - y.clone())), show_big(&(&x - &y)), show_big(&w)]);
+            let mut sp = vec![show_big(&z), show_big(&(x.clone() - y.clone())), show_big(&(&x - &y)), show_big(&w)];
+            if y.len() == 1 {
+                sp.push(show_big(&(x.clone() - y.as_u64())));
+            }
+            let v = same(sp);
             Some(format!("{} {}", v, b01(borrow)))
         }
         ("mul", [x, y]) => {
@@ -229,14 +269,22 @@ fn big_op(op: &str, a: &[&str]) -> Option<String> {
             z.inplace_mul(&y);
             let mut w = x.clone();
             w *= &y;
-            Some(same(vec![show_big(&z), show_big(&(x.clone() * y.clone())), show_big(&(&x * &y)), show_big(&w)]))
+            let mut v = vec![show_big(&z), show_big(&(x.clone() * y.clone())), show_big(&(&x * &y)), show_big(&w)];
+            if y.len() == 1 {
+                v.push(show_big(&(x.clone() * y.as_u64())));
+            }
+            Some(same(v))
         }
         ("div", [x, y]) => {
             let (x, y) = (parse_big(x)?, parse_big(y)?);
             let mut z = x.clone();
             let r = z.inplace_div(&y);
             let q2 = x.clone() / y.clone();
-            Some(format!("{} {}", same(vec![show_big(&z), show_big(&q2)]), show_big(&r)))
+            let mut v = vec![show_big(&z), show_big(&q2)];
+            if y.len() == 1 {
+                v.push(show_big(&(x.clone() / y.as_u64())));
+            }
+            Some(format!("{} {}", same(v), show_big(&r)))
         }
         ("shl", [x, n]) => {
             let mut x = parse_big(x)?;
@@ -268,6 +316,17 @@ fn big_op(op: &str, a: &[&str]) -> Option<String> {
         ("flags", [x]) => {
             let x = parse_big(x)?;
             Some(format!("{} {} {}", b01(x.is_zero()), b01(x.is_even()), b01(x.is_odd())))
+        }
+        ("u128", [x]) => {
+            // from_u128 / as_u128 / from_u64 / as_u64 round trips of a value below 2^128
+            let v = u128::from_str_radix(x, 16).ok()?;
+            let b = BigInt::from_u128(v);
+            let mut sp = vec![show_big(&b), format!("{:x}", b.as_u128()), show_big(&parse_big(x)?), format!("{:x}", parse_big(x)?.as_u128())];
+            if v <= u64::MAX as u128 {
+                sp.push(show_big(&BigInt::from_u64(v as u64)));
+                sp.push(format!("{:x}", BigInt::from_u64(v as u64).as_u64()));
+            }
+            Some(same(sp))
         }
         ("allones", [n]) => Some(show_big(&BigInt::all1s(n.parse().ok()?))),
         ("onehot", [n]) => Some(show_big(&BigInt::one_hot(n.parse().ok()?))),
@@ -526,10 +585,16 @@ fn handle(t: &[&str]) -> Option<String> {
                 v
             };
             let st = String::from_utf8(bytes).ok()?;
-            Some(match Float::try_from_str(&st, f) {
+            let show = |r: Result<Float, _>| match r {
                 Ok(x) => format!("ok {}", show_flt(&x)),
-                Err(_) => "err".to_string(),
-            })
+                Err::<Float, _>(_) => "err".to_string(),
+            };
+            let mut sp = vec![show(Float::try_from_str(&st, f))];
+            if f == arpfloat::FP64 {
+                // `TryFrom<&str>` parses with the FP64 semantics
+                sp.push(show(Float::try_from(st.as_str())));
+            }
+            Some(all_same(&sp))
         }
         ["const", name, s] => {
             let f = parse_sem(s)?;
